@@ -34,6 +34,7 @@ EXPLANATION = (
   ' (TAB-cct / TAB-dfc / TAB-struct / TAB-iso6937 / FIN-iso6937) code-page, frame-rate, GSI / TTI field layout and the ISO 6937 diacritic table agree with the oracle tables, and the decoder consumes two bytes exactly for 0xC1-0xCF;'
   ' (TAB-region-key / TAB-reset) regions are shared only between blocks with equal vertical position, line count and alignment; at a new row the styles are reset in teletext subtitles only (in open subtitles they persist);'
   ' (FIN-parse) a parsed SMPTE label counts at the rate it was given (`:`), or at the matching drop-frame rate (`;`): see C12;'
+  ' (FIN-dropcount) the number of labels dropped per minute at each 1001-denominator rate keeps labels aligned with real time (two known findings at 24000/1001, the rate of STL23.01): see C12;'
 )
 RULE_TEXT = "per table entry / byte value (aggregated per classifier) / struct format / call site"
 UNDECIDED = ["region geometry from VP/JC and row counts", "cumulative-set accumulation behaviour", "the text-field state machine as a whole (span boundaries, space insertion)",
@@ -483,4 +484,5 @@ def run(ctx):
   common.check_item_handlers(ctx, ["ttconv.stl.reader", "ttconv.stl.datafile", "ttconv.stl.tf", "ttconv.stl.iso6937"])
   from . import c12 as _c12
   _c12.check_parse_rate(ctx)
+  _c12.check_drop_count(ctx)
   common.check_history_independence(ctx, [n for n in ctx.ix.modules if n.startswith("ttconv.stl")] + ["ttconv.time_code"])
